@@ -96,3 +96,32 @@ def forms_at(model: Model, f: FuncInfo, at: ast.AST, exprs: list[ast.AST], const
     for e in exprs:
         out.append(run.ev.ev(e))
     return out, env
+
+
+def symbolic_at(f: FuncInfo, at: ast.AST, names: set) -> dict:
+    """The defining expressions of `names` just before statement `at`, with the locals of the backward slice substituted
+    (straight-line: only plain assignments of the slice are followed; a name (re)defined under a branch stays a name)."""
+    from .pathsym import subst
+    stmts, _free = backward_slice(f.node, at, set(names))
+    env: dict = {}
+    for st in stmts:
+        if isinstance(st, ast.Assign) and len(st.targets) == 1:
+            t = st.targets[0]
+            if isinstance(t, ast.Name):
+                env[t.id] = subst(st.value, env)
+                continue
+            if isinstance(t, ast.Tuple) and all(isinstance(x, ast.Name) for x in t.elts):
+                v = subst(st.value, env)
+                for i, x in enumerate(t.elts):
+                    if isinstance(v, ast.Tuple) and len(v.elts) == len(t.elts):
+                        env[x.id] = v.elts[i]
+                    else:
+                        env[x.id] = ast.Subscript(value=v, slice=ast.Constant(value=i), ctx=ast.Load())
+                continue
+        if isinstance(st, ast.AnnAssign) and isinstance(st.target, ast.Name) and st.value is not None:
+            env[st.target.id] = subst(st.value, env)
+            continue
+        for n in ast.walk(st):
+            if isinstance(n, ast.Name) and isinstance(n.ctx, ast.Store):
+                env.pop(n.id, None)
+    return {n: env[n] for n in names if n in env}
